@@ -24,6 +24,14 @@ def cases(tier, rng):
         seq = fqgen.random_schedule(rng, n, rng.randint(5, 60), removes=rng.random() < 0.3, spurious=rng.random() < 0.3)
         out.append("f%d fq%s / %s / D" % (k, " noblock" if rng.random() < 0.1 else "", " / ".join(seq)))
         k += 1
+    # many registered streams (more than any plausible per-call budget): the item of the last one comes out
+    for n in (33, 40, 70, 100, 257):
+        ins = " / ".join("I%d" % i for i in range(1, n + 1))
+        for polls in (1, 2, 3):
+            out.append("n%d fq / %s / %s / A%d.1 / D" % (k, ins, " / ".join(["P"] * polls), n))
+            k += 1
+            out.append("n%d fq / %s / A%d.1 / A%d.2 / %s / D" % (k, ins, n, n // 2, " / ".join(["P"] * polls)))
+            k += 1
     for t in ("PULL", "SUB", "DEALER", "ROUTER", "REP", "XPUB"):
         for _ in range(250 if tier == "quick" else 4000):
             out.append("s%d %s" % (k, scen.scenario(rng, t)))
